@@ -36,8 +36,8 @@ def brace_text(n, rng):
     return [rng.choice(toks) for _ in range(n)]
 
 
-def one(ctx, name, cfg, kind, f, decider, do_model=True, label=""):
-    tc = strat.testcase_from_fields(kind, f)
+def one(ctx, name, cfg, kind, f, decider, do_model=True, label="", cut=None):
+    tc = strat.testcase_from_fields(kind, f, cut)
     n = len(tc)
     B = sum(len(p) for p, r in zip(f[1], f[2]) if r)
     rewriting = name.startswith("replace")
@@ -51,7 +51,7 @@ def one(ctx, name, cfg, kind, f, decider, do_model=True, label=""):
     case = dict(strategy=name, cfg={k: v for k, v in cfg.items()}, splitter=kind, parts=common.enc_list(f[1]),
                 reducible=common.enc_bools(f[2]), verdicts="".join("1" if v else "0" for v in run.verdicts[:200]), label=label)
     if do_model and name in strat.MODELLED:
-        ctx.expect(name, strat.model_line(name, cfg, f, run.verdicts), run.encode(), case)
+        ctx.expect(name, strat.model_line(name, cfg, f, run.verdicts, kind=kind, cut=cut), run.encode(), case)
     else:
         ctx.evaluations += 1
     tests = len(run.verdicts) + 1
@@ -109,6 +109,39 @@ def grid(ctx, thorough, do_model=True):
                         one(ctx, name, cfg, kind, f, dec, do_model, label)
 
 
+COLLAPSE_FILES = [b"f{ \n }g;h{\t}\n;x y z {  } w\n", b"a {\n\n}\nb{ }{\r\n}\nc\n", b"// DDBEGIN\nif (x) {\n  \n}\ny{\n}\n// DDEND\n{\n}\n"]
+COLLAPSE_KINDS = [("line", None), ("char", None), ("symbol", None), ("symbol", (b"", b"\n")), ("symbol", (b"{", b"}")), ("symbol", (b" ", b";")),
+                  ("jsstr", None), ("attrs", None)]
+
+
+def collapse_runs(ctx, do_model=True):
+    """brace collapsing re-loads the rewritten text with a copy of the testcase: every splitter, custom symbol delimiters included"""
+    rng = ctx.rng
+    for data in COLLAPSE_FILES + [b"s = '{ }' + \"{\\n\";\nt = '{' + ' ' + '}';\n", b"<a b='{' c=' ' d='}'><e f=\"{  }\">\n"]:
+        for kind, cut in COLLAPSE_KINDS:
+            res = loaders.real_load(kind, data, cut)
+            if res[0] != "ok":
+                continue
+            f = strat.fields(res[1])
+            for cfg in (dict(), dict(rep="always"), dict(min=2, max=2, rep="never")):
+                for label, dec in deciders(rng):
+                    one(ctx, "minimize-collapse-brace", cfg, kind, f, dec, do_model, "collapse:" + label, cut=cut)
+
+
+def marker_forming(ctx, do_model=True):
+    """deleting atoms joins pieces into a DDBEGIN/DDEND word right when a brace pair is collapsed: the re-load of
+    the collapsed text must not end the run with an error"""
+    cases = [("char", b"{  }DDxEND", lambda c: b"END" in c and b"DD" in c and b"{  }" in c),
+             ("char", b"{  }DDBExGIN", lambda c: b"GIN" in c and b"DDBE" in c and b"{  }" in c),
+             ("symbol", b"{  }DD;x;END;", lambda c: b"END" in c and b"DD" in c and b"{  }" in c),
+             ("char", b"h\n// DDBEGIN\na{  }DDxEND\n// DDEND\nt\n", lambda c: b"aEND" not in c and b"DDEND\n//" in c.replace(b"x", b"") and b"{  }" in c)]
+    for kind, data, fn in cases:
+        res = loaders.real_load(kind, data)
+        f = strat.fields(res[1])
+        for cfg in (dict(), dict(rep="always")):
+            one(ctx, "minimize-collapse-brace", cfg, kind, f, lambda k, c, fn=fn: fn(c), do_model, "marker-forming")
+
+
 def trees(ctx, limit, do_model=True):
     done_all = True
     for name in REMOVAL:
@@ -151,6 +184,8 @@ def known_finding_cases(ctx):
 
 
 def search(ctx):
+    collapse_runs(ctx, do_model=False)
+    marker_forming(ctx, do_model=False)
     grid(ctx, True, do_model=False)
     trees(ctx, 3000, do_model=False)
 
@@ -159,6 +194,8 @@ def run(ctx) -> int:
     proof = common.proof_stage(ctx.pid)
     known_finding_cases(ctx)
     grid(ctx, ctx.thorough)
+    collapse_runs(ctx)
+    marker_forming(ctx)
     if trees(ctx, 6000 if ctx.thorough else 250):
         ctx.exhaustive.append("every verdict sequence of the four removal strategies for n <= 4 atoms (repeat last/always)")
     hill_climb(ctx, 400 if ctx.thorough else 60)
